@@ -123,7 +123,8 @@ Lemma frame_refl : forall s, frame s s. Proof. intro s. repeat split. Qed.
 Ltac framed := unfold frame; ssimpl; repeat split; reflexivity.
 
 Definition is_tx (o : op) : bool :=
-  match o with OBegin _ _ _ _ _ | OEnd | OSetVotes _ | OAdvance _ => false | _ => true end.
+  match o with OBegin _ _ _ _ _ | OEnd | OSetVotes _ | OAdvance _ | OGenesis => false | _ => true end.
+Definition is_genesis (o : op) : bool := match o with OGenesis => true | _ => false end.
 
 Section Lift.
 Variable v : variant.
@@ -228,10 +229,10 @@ Qed.
 Hypothesis P_clock : forall s t h, P s -> P (set_clock s t h).
 Hypothesis P_votes : forall s vs p, P s -> P (set_votes s vs p).
 
-Theorem step_P : forall c o s s', step v c o s = Ok s' -> P s -> P s'.
+Lemma step_P_nogen : forall c o s s', is_genesis o = false -> step v c o s = Ok s' -> P s -> P s'.
 Proof.
-  intros c o s s' H I. destruct (is_tx o) eqn:T; [eapply step_tx_P; eauto|].
-  destruct o; try discriminate T; simpl in H.
+  intros c o s s' G H I. destruct (is_tx o) eqn:T; [eapply step_tx_P; eauto|].
+  destruct o; try discriminate T; try discriminate G; simpl in H.
   - inversion H; subst. apply P_clock. exact I.
   - inversion H; subst. apply P_votes. exact I.
   - unfold begin_block in H. apply bind_ok in H. destruct H as (s1 & H1 & H). inversion H; subst; clear H.
@@ -239,6 +240,23 @@ Proof.
     + eapply allocate_P; [exact H1|]. apply P_clock. exact I.
     + inversion H1; subst. apply P_clock. exact I.
   - inversion H; subst. apply P_votes. exact I.
+Qed.
+(* histories without a genesis round trip *)
+Theorem run_P_nogen : forall c ops s, (forall o, In o ops -> is_genesis o = false) -> P s -> P (run v c ops s).
+Proof.
+  intros c ops. unfold run. induction ops as [|o r IH]; intros s G I; simpl; [exact I|].
+  apply IH; [intros; apply G; right; assumption|].
+  unfold step_total. destruct (step v c o s) eqn:E; auto. eapply step_P_nogen; [apply G; left; reflexivity|exact E|exact I].
+Qed.
+
+(* predicates that survive the genesis round trip (it forgets the delegator lists and the compound infos and
+   restores the id counter as the highest pending id) *)
+Hypothesis P_genesis : forall s s', genesis_roundtrip s = Ok s' -> P s -> P s'.
+
+Theorem step_P : forall c o s s', step v c o s = Ok s' -> P s -> P s'.
+Proof.
+  intros c o s s' H I. destruct (is_genesis o) eqn:G; [|eapply step_P_nogen; eauto].
+  destruct o; try discriminate G. simpl in H. eapply P_genesis; eauto.
 Qed.
 Lemma step_total_P : forall c s o, P s -> P (step_total v c s o).
 Proof. intros c s o I. unfold step_total. destruct (step v c o s) eqn:E; auto. eapply step_P; eauto. Qed.
@@ -265,6 +283,7 @@ Proof.
   - intros s0 who u I d. unfold pay_undel. ssimpl. apply I.
   - intros s0 t h I d. ssimpl. apply I.
   - intros s0 vs p I d. ssimpl. apply I.
+  - intros s0 s1 H I d. unfold genesis_roundtrip in H; inversion H; subst; clear H. ssimpl. apply I.
 Qed.
 
 (* the token registry's record follows too -- when Undelegate burns through the tokens keeper *)
@@ -281,6 +300,7 @@ Proof.
   - intros s0 who u I d. unfold pay_undel. ssimpl. apply I.
   - intros s0 t h I d. ssimpl. apply I.
   - intros s0 vs p I d. ssimpl. apply I.
+  - intros s0 s1 H I d. unfold genesis_roundtrip in H; inversion H; subst; clear H. ssimpl. apply I.
 Qed.
 
 (* ================================================================ 2. pro-rata redemption *)
@@ -336,6 +356,7 @@ Proof.
   - intros s0 who u I Z0 d. unfold pay_undel in *. ssimpl. apply I. assumption.
   - intros s0 t h I Z0 d. ssimpl. apply I. assumption.
   - intros s0 vs p I Z0 d. ssimpl. apply I. assumption.
+  - intros s0 s1 H I Z0 d. unfold genesis_roundtrip in H; inversion H; subst; clear H. ssimpl. apply I. assumption.
 Qed.
 
 (* THE statement of the property: redeeming stake x of denom d burns b shares with x*shares <= stake*b
@@ -442,9 +463,10 @@ Proof.
   - destruct (u_id u =? id) eqn:E; [lia|reflexivity].
   - destruct (u_id x =? id); [discriminate|]. auto.
 Qed.
-Theorem claimed_stays_claimed : forall id v c ops s, gone id s -> gone id (run v c ops s).
+Theorem claimed_stays_claimed : forall id v c ops s, (forall o, In o ops -> is_genesis o = false) ->
+  gone id s -> gone id (run v c ops s).
 Proof.
-  intros id v c ops s. apply run_P.
+  intros id v c ops s G. apply run_P_nogen; [ | | | | | | | exact G].
   - intros s0 s1 (_ & _ & _ & _ & A & B & _) [L F]. split; [rewrite B|rewrite A]; assumption.
   - intros c0 who amts s0 s1 H [L F]. apply delegate_fields in H. destruct H as [_ ->]. split; ssimpl; assumption.
   - intros c0 who amts s0 s1 H [L F]. apply undelegate_fields in H. destruct H as (pc & _ & _ & _ & ->). split; ssimpl; [lia|].
@@ -467,17 +489,26 @@ Proof.
   - intros s0 who u I x X. unfold pay_undel in *. ssimpl. unfold remove_undel in X. apply filter_In in X. apply I. tauto.
   - intros s0 t h I u. ssimpl. apply I.
   - intros s0 vs p I u. ssimpl. apply I.
+  - intros s0 s1 H I u U. unfold genesis_roundtrip in H; inversion H; subst; clear H. ssimpl. clear I. unfold max_undel_id.
+    assert (K : forall l m, In u l -> u_id u <= fold_left (fun m u => Z.max m (u_id u)) l m).
+    { assert (M : forall l m, m <= fold_left (fun m u => Z.max m (u_id u)) l m)
+        by (induction l as [|x r IH]; intro m; simpl; [lia|]; specialize (IH (Z.max m (u_id x))); lia).
+      induction l as [|x r IH]; intros m E; simpl; [destruct E|]. destruct E as [E|E].
+      - subst x. specialize (M r (Z.max m (u_id u))). lia.
+      - apply IH. exact E. }
+    apply K. exact U.
 Qed.
 
 Theorem claim_once : forall v c who id s s' ops who2,
+  (forall o, In o ops -> is_genesis o = false) ->
   ids_bounded s -> claim v who id s = Ok s' ->
   exists e, claim v who2 id (run v c ops s') = Err e.
 Proof.
-  intros v c who id s s' ops who2 B H. apply claim_spec in H. destruct H as (u & F & _ & _ & _ & ->).
+  intros v c who id s s' ops who2 NG B H. apply claim_spec in H. destruct H as (u & F & _ & _ & _ & ->).
   apply find_undel_some in F. destruct F as [Fin Fid].
   assert (G : gone id (pay_undel s who u)).
   { unfold gone, pay_undel. ssimpl. split; [apply B in Fin; lia|]. rewrite <- Fid. apply find_undel_removed. }
-  apply (claimed_stays_claimed id v c ops) in G. destruct G as [_ G].
+  apply (claimed_stays_claimed id v c ops _ NG) in G. destruct G as [_ G].
   unfold claim. rewrite G. eexists. reflexivity.
 Qed.
 
@@ -913,3 +944,21 @@ Theorem refused_compound_keeps_rewards :
   is_ok (step tree_r4 demo_cfg (OAllocate true 0) s0) = true /\ rew s0 0 0 = 0 /\ 0 < rew s 0 0 /\ stake s 0 = stake s0 0 /\
   0 < nbal s 100 0.
 Proof. vm_compute. repeat split. Qed.
+
+(* the genesis round trip keeps every pending undelegation record, the pool books, the share supply and the reward
+   records, and leaves the id counter at or above every pending id: the next Undelegate cannot reuse a pending id *)
+Theorem genesis_roundtrip_keeps_records : forall s s', genesis_roundtrip s = Ok s' ->
+  undels s' = undels s /\ rew s' = rew s /\ stake s' = stake s /\ shares s' = shares s /\ ssup s' = ssup s /\ sbal s' = sbal s /\
+  modb s' = modb s /\ (forall u, In u (undels s') -> u_id u < last s' + 1).
+Proof.
+  intros s s' H. assert (B : ids_bounded s').
+  {     unfold genesis_roundtrip in H. inversion H; subst. intros u U. ssimpl. unfold max_undel_id.
+    assert (M : forall l m, m <= fold_left (fun m u => Z.max m (u_id u)) l m)
+      by (induction l as [|x r IH]; intro m; simpl; [lia|]; specialize (IH (Z.max m (u_id x))); lia).
+    assert (K : forall l m, In u l -> u_id u <= fold_left (fun m u => Z.max m (u_id u)) l m).
+    { induction l as [|x r IH]; intros m E; simpl; [destruct E|]. destruct E as [E|E].
+      - subst x. specialize (M r (Z.max m (u_id u))). lia.
+      - apply IH. exact E. }
+    apply K. exact U. }
+  unfold genesis_roundtrip in H. inversion H; subst. ssimpl. repeat split. intros u U. specialize (B u U). ssimpl. lia.
+Qed.
